@@ -52,6 +52,10 @@ EXTRA = [
     "select a from t1 where b > (select t2.a + max(t2.c) from t2 where t2.a = t1.a group by t2.a)",
     "select a, b from t1 where b >= (select max(t2.c) from t2 where t2.a = t1.a group by t2.a)",
     "select a from t1 where b > (select t2.a from t2 where t2.a = t1.a group by t2.a having count(*) > 0)",
+    # ... and grouping by an expression of the correlated table (the select item is the grouping expression itself)
+    "select a from t1 where b > (select t2.a + 1 from t2 where t2.a = t1.a group by t2.a + 1)",
+    "select a, (select t2.a * 2 from t2 where t2.a = t1.a group by t2.a * 2) from t1",
+    "select a from t1 where b > (select max(t2.c) + (t2.a + 1) from t2 where t2.a = t1.a group by t2.a + 1)",
     "select a from t1 limit (select count(*) from t2)",
     "select a from t1 order by a limit 1 + 1",
     "select a from t1 offset 1",
